@@ -499,9 +499,11 @@ static void generate_minimal_hash(Ports &p, Port_Matcher &pm)
     svec_t keys;
     cvec_t args;
 
+    //the hashed lookup compares the message with the name's text: a name
+    //that is a pattern (enumeration, alternatives) needs the matcher
     bool enump = false;
     for(unsigned i=0; i<p.ports.size(); ++i)
-        if(strchr(p.ports[i].name, '#'))
+        if(strchr(p.ports[i].name, '#') || strchr(p.ports[i].name, '{'))
             enump = true;
     if(enump)
         return;
